@@ -16,10 +16,11 @@ META = {
             "exactly while its ticket is a full capacity ahead of the pop index, stays enabled once enabled, and every "
             "popped task is called, pending or explicitly discarded (c10_retire_blocks_iff_queue_full, "
             "c10_queue_never_over_capacity, c10_blocked_retire_resumes, c10_no_task_lost).  'All called before stop() "
-            "returns' is proved for every loop condition of the form running || index < size (the proposed repair, "
-            "c10_all_before_stop_returns_if_loop_waits / _fixed_loop) and REFUTED for the condition regenerated from the "
-            "current source (finding F2: stop() with a region open, c10_all_before_stop_refuted), as is 'a retire() "
-            "racing with stop() is kept' (c10_retire_racing_stop_refuted).  The loop conditions, the epoch comparison, "
+            "returns' (every task in front of the marker and not behind an earlier marker) is proved for the loop "
+            "condition regenerated from the current source (c10_all_before_stop_returns; rests on src_kc_is_fixed, which "
+            "breaks if fix e0cd24e is reverted) and for every loop condition of the form running || index < size; the "
+            "loop as it was (finding F2, fixed) keeps its refutation witness as an Example; 'a retire() racing with "
+            "stop() is kept' is REFUTED for the current source (c10_retire_racing_stop_refuted, known finding).  The loop conditions, the epoch comparison, "
             "the marker test, the batch size, the index arithmetic and Epoch's lock/unlock/tick/scan expressions are "
             "regenerated from garbage_collector.h / epoch.h / bounded_queue.hpp on every run.  Tie: the real "
             "GarbageCollector with its real Epoch, real ConcurrentBoundedQueue and its own std::thread runs under the "
@@ -33,7 +34,9 @@ META = {
             "durations (any schedule), retire(reclaimer, epoch) with a caller-supplied epoch, 2^64 epoch wrap.  The "
             "destructor is stop().  Contract read into the property: retire() after the last stop()/without a running "
             "collector is client misuse and is not checked; a retire() overlapping a stop() is checked (separate "
-            "signature).  Not proved: liveness (that stop() returns at all) - deadlock/livelock is only searched for "
+            "signature, known finding retire-overlapping-stop-dropped).  Finding F2 (stop() with a region open dropped the "
+            "last batch) was fixed in /repo by e0cd24e: a recurrence is a VIOLATION (monitor stopall, directed case d.f2, "
+            "mutant revert_stop_drain_fix).  Not proved: liveness (that stop() returns at all) - deadlock/livelock is only searched for "
             "by the scheduler runs and the model exploration.",
 }
 
@@ -133,7 +136,7 @@ AIMED = [(0, "B,R,S|L,U"), (1, "B,R,S|L,U"), (1, "B,R,R,S|L,U"), (1, "B,R,W,S|L,
 
 DIRECTED = [
     # (name, min-capacity, program, step_ns)  -- deterministic by construction (sleeps order the threads)
-    ("d.f2", 2, "Z100,B,R,S|L,Z5000,U", 50),                # F2: stop() while thread 1's region is open
+    ("d.f2", 2, "Z100,B,R,S|L,Z5000,U", 50),                # regression (F2, fixed e0cd24e): stop() while thread 1's region is open
     ("d.f2b", 4, "Z100,B,R,R,R,S|L,Z9000,U", 50),
     ("d.full", 1, "B,R,R,R,R,W,S|Z50,L,Z8000,U", 50),       # queue of 1 full while a region holds the head back
     ("d.full2", 2, "B,Z3000,W,S|R6|L,Z4000,U|R5", 50),
@@ -226,7 +229,7 @@ def main(argv):
     MON = {"once": ("called-twice", "a reclaimer was called more than once"),
            "notearly": ("called-early", "a reclaimer was called while a region that was open when it was retired is still open"),
            "stopall": ("stop-returns-with-uncalled-reclaimers", "stop() returned although a reclaimer retired before stop() began has not been called (a region entered before that retire() was open during stop())"),
-           "stopallnr": ("stop-returns-with-uncalled-reclaimers-no-region", "stop() returned although a reclaimer retired before stop() began has not been called, and no region entered before that retire() was open during stop()"),
+           "stopallnr": ("stop-returns-with-uncalled-reclaimers", "stop() returned although a reclaimer retired before stop() began has not been called (no region entered before that retire() was open during stop())"),
            "racing": ("retire-overlapping-stop-dropped", "a reclaimer whose retire() overlapped stop() was never called (dropped behind the stop marker)"),
            "fifo": ("calls-out-of-order", "reclaimers of one thread were called out of retirement order"),
            "qbound": ("push-beyond-capacity", "retire() returned although the queue already held capacity unpopped tasks"),
